@@ -20,7 +20,7 @@ import elementpath.aliases as ta
 from elementpath.namespaces import XML_ID, XML_LANG
 from elementpath.datatypes import AnyURI, Float, DayTimeDuration, YearMonthDuration, \
     StringProxy, AnyAtomicType, Duration
-from elementpath.helpers import get_double
+from elementpath.helpers import get_double, round_number
 from elementpath.xpath_nodes import XPathNode, ElementNode, TextNode, CommentNode, \
     ProcessingInstructionNode, DocumentNode, EtreeElementNode
 from elementpath.xpath_context import XPathSchemaContext
@@ -301,14 +301,16 @@ def evaluate__substring(self: XPathFunction, context: ta.ContextType = None) -> 
     try:
         start = self.get_argument(context, index=1, required=True)
         if math.isnan(start) or math.isinf(start):
-            return ''
+            # fn:round(-INF) <= $p holds for every position: whole string (2 arguments only,
+            # with a length -INF + fn:round($length) is -INF or NaN and nothing is selected)
+            return item if start < 0 and len(self) == 2 else ''
     except TypeError:
         if isinstance(context, XPathSchemaContext):
             start = 0
         else:
             raise self.error('FORG0006', "the second argument must be xs:numeric") from None
     else:
-        start = int(round(start)) - 1
+        start = int(round_number(start)) - 1
 
     if len(self) == 2:
         return item[max(start, 0):]
@@ -326,7 +328,7 @@ def evaluate__substring(self: XPathFunction, context: ta.ContextType = None) -> 
         if math.isinf(length):
             return item[max(start, 0):]
         else:
-            stop = start + int(round(length))
+            stop = start + int(round_number(length))
             return item[slice(max(start, 0), max(stop, 0))]
 
 
